@@ -1,0 +1,198 @@
+//go:build verif
+
+// Package verifhook holds observation points for the runtime-verification
+// harness. This file is only compiled with the "verif" build tag.
+//
+// Behaviour is selected per process through the environment (read once) or
+// in-process through the Set* functions:
+//
+//	VERIF_FS_TRACE=<file>    append one line "<n>\t<op>\t<path>..." per FS event
+//	VERIF_FS_KILL_AT=<k>     SIGKILL this process in front of the k-th FS event
+//	VERIF_FS_TORN=1          with KILL_AT: first truncate the files named by the
+//	                         event that end in ".tmp" to half their size
+//	VERIF_FS_FAIL_AT=<k>     make the k-th FS event fail for real: the source of
+//	                         a rename is moved away, the target of a remove is
+//	                         removed beforehand (the operation then returns ENOENT)
+//	VERIF_FS_FAIL_OPS=a,b    restrict FAIL_AT/KILL_AT counting to these op names
+//	VERIF_DELAY=name:permille:micros[,...]  sleep at Point(name) ("*" = any)
+//	VERIF_SEED=<n>           seeds the delay decisions
+package verifhook
+
+import (
+	"fmt"
+	"math/rand/v2"
+	"os"
+	"strconv"
+	"strings"
+	"sync"
+	"syscall"
+	"time"
+)
+
+type delay struct {
+	permille uint64
+	micros   int64
+}
+
+var (
+	mu      sync.Mutex
+	once    sync.Once
+	fsCount int
+	trace   *os.File
+	killAt  int
+	failAt  int
+	torn    bool
+	onlyOps map[string]bool
+	delays  map[string]delay
+	rng     *rand.Rand
+
+	fsFn    func(n int, op string, paths []string)
+	pointFn func(name string)
+	semaFn  func(sem any, event string, n int64)
+)
+
+func initEnv() {
+	if p := os.Getenv("VERIF_FS_TRACE"); p != "" {
+		trace, _ = os.OpenFile(p, os.O_CREATE|os.O_WRONLY|os.O_APPEND, 0o644)
+	}
+	killAt, _ = strconv.Atoi(os.Getenv("VERIF_FS_KILL_AT"))
+	failAt, _ = strconv.Atoi(os.Getenv("VERIF_FS_FAIL_AT"))
+	torn = os.Getenv("VERIF_FS_TORN") != ""
+	if s := os.Getenv("VERIF_FS_FAIL_OPS"); s != "" {
+		onlyOps = map[string]bool{}
+		for _, o := range strings.Split(s, ",") {
+			onlyOps[o] = true
+		}
+	}
+	seed, _ := strconv.ParseUint(os.Getenv("VERIF_SEED"), 10, 64)
+	rng = rand.New(rand.NewPCG(seed, 0x5eed))
+	if s := os.Getenv("VERIF_DELAY"); s != "" {
+		delays = map[string]delay{}
+		for _, part := range strings.Split(s, ",") {
+			f := strings.Split(part, ":")
+			if len(f) != 3 {
+				continue
+			}
+			pm, _ := strconv.ParseUint(f[1], 10, 64)
+			us, _ := strconv.ParseInt(f[2], 10, 64)
+			delays[f[0]] = delay{pm, us}
+		}
+	}
+}
+
+// SetFS installs an in-process observer of FS events (nil removes it). It is
+// called with the monitor's lock held, i.e. atomically with the counter.
+func SetFS(f func(n int, op string, paths []string)) {
+	once.Do(initEnv)
+	mu.Lock()
+	fsFn = f
+	fsCount = 0
+	mu.Unlock()
+}
+
+// SetPoint installs an in-process observer of Point events (nil removes it).
+func SetPoint(f func(name string)) {
+	once.Do(initEnv)
+	mu.Lock()
+	pointFn = f
+	mu.Unlock()
+}
+
+// SetSema installs an in-process observer of semaphore events (nil removes it).
+func SetSema(f func(sem any, event string, n int64)) {
+	once.Do(initEnv)
+	mu.Lock()
+	semaFn = f
+	mu.Unlock()
+}
+
+// Sabotage makes the operation announced by (op, paths) fail for real.
+func Sabotage(op string, paths []string) {
+	if len(paths) == 0 {
+		return
+	}
+	switch {
+	case strings.HasPrefix(op, "rename"):
+		_ = os.Rename(paths[0], paths[0]+".verif-sabotaged")
+	case strings.HasPrefix(op, "remove"):
+		_ = os.Remove(paths[0])
+	}
+}
+
+// FS is called in front of a filesystem mutation.
+func FS(op string, paths ...string) {
+	once.Do(initEnv)
+	mu.Lock()
+	defer mu.Unlock()
+	if onlyOps != nil && !onlyOps[op] {
+		if trace != nil {
+			fmt.Fprintf(trace, "-\t%s\t%s\n", op, strings.Join(paths, "\t"))
+		}
+		return
+	}
+	fsCount++
+	n := fsCount
+	if trace != nil {
+		fmt.Fprintf(trace, "%d\t%s\t%s\n", n, op, strings.Join(paths, "\t"))
+	}
+	if fsFn != nil {
+		fsFn(n, op, paths)
+	}
+	if failAt != 0 && n == failAt {
+		if trace != nil {
+			fmt.Fprintf(trace, "FAIL\t%d\n", n)
+		}
+		Sabotage(op, paths)
+	}
+	if killAt != 0 && n == killAt {
+		if torn {
+			for _, p := range paths {
+				if strings.HasSuffix(p, ".tmp") {
+					if fi, err := os.Stat(p); err == nil {
+						_ = os.Truncate(p, fi.Size()/2)
+					}
+				}
+			}
+		}
+		if trace != nil {
+			fmt.Fprintf(trace, "KILL\t%d\n", n)
+			_ = trace.Sync()
+		}
+		_ = syscall.Kill(os.Getpid(), syscall.SIGKILL)
+		select {}
+	}
+}
+
+// Point marks a position between two critical sections.
+func Point(name string) {
+	once.Do(initEnv)
+	mu.Lock()
+	f := pointFn
+	d, ok := delays[name]
+	if !ok {
+		d, ok = delays["*"]
+	}
+	var sleep time.Duration
+	if ok && d.permille > 0 && rng.Uint64N(1000) < d.permille {
+		sleep = time.Duration(d.micros) * time.Microsecond
+	}
+	mu.Unlock()
+	if f != nil {
+		f(name)
+	}
+	if sleep > 0 {
+		time.Sleep(sleep)
+	}
+}
+
+// Sema reports an acquire or release of a scheduler semaphore. The observer
+// runs under the monitor's lock so that its shadow state is updated in the
+// order in which the events are reported.
+func Sema(sem any, event string, n int64) {
+	once.Do(initEnv)
+	mu.Lock()
+	if semaFn != nil {
+		semaFn(sem, event, n)
+	}
+	mu.Unlock()
+}
